@@ -177,18 +177,24 @@ func (c *c08World) takeRefs() {
 	}
 }
 
-func scC08Serial(r *Run) { runHeldReaders(r, false) }
+func scC08Serial(r *Run) { runHeldReaders(r, false, false) }
 
 // scC05Held: the C05 clause about requests that had already resolved their handler when the writer finalises,
 // rotates or expires the object: complete correct bytes or a non-200, never a truncated or foreign 200 body.
-func scC05Held(r *Run) { runHeldReaders(r, true) }
+func scC05Held(r *Run) { runHeldReaders(r, true, false) }
 
-func runHeldReaders(r *Run, c05Only bool) {
+// scC18Held: retention with requests that are inside a handler (held at its guarded sites) while the window moves.
+func scC18Held(r *Run) { runHeldReaders(r, true, true) }
+
+func runHeldReaders(r *Run, c05Only bool, bounds bool) {
 	T := r.T
 	g := &muxGen{variants: allVariants, minCalls: 30, maxCalls: 200, paramChanges: true, fastRotation: T.Chance(1, 2), negativeStart: true}
 	cfg := genMuxCfg(r, g)
 	if T.Chance(1, 2) {
 		cfg.disk = true
+	}
+	if c05Only {
+		cfg.segCount = map[bool]int{true: 7, false: 3}[cfg.vname == "ll"] // a small window: objects expire while readers are held
 	}
 	script := genScript(r, cfg, g)
 	w, err := newMuxWorld(r, cfg, script)
@@ -208,7 +214,6 @@ func runHeldReaders(r *Run, c05Only bool) {
 	r.Arm("rotate.afterBroadcast") // see sc_c06.go: keeps multi-rotation writes repeatable
 	if c05Only {
 		r.Arm("segment.beforeCopy", "part.beforeCopy", "server.beforeHandler")
-		cfg.segCount = map[bool]int{true: 7, false: 3}[cfg.vname == "ll"] // a small window: objects expire while readers are held
 	}
 	nClients := T.Range(1, 6)
 	r.Tracef("config %s calls=%d clients=%d armed=[%s]", cfg, len(script), nClients, armed)
@@ -441,6 +446,11 @@ func runHeldReaders(r *Run, c05Only bool) {
 		}
 		r.Choose(acts)
 		afterStep()
+		if bounds && !r.Failed() && w.writer.Idle() && c.content {
+			// C18: whatever requests are in flight, the stream never retains more than its window
+			w.obs.observe()
+			w.obs.boundsAtRest(r)
+		}
 	}
 	r.Stats.NonTrivial = c.content
 	w.finish()
@@ -607,9 +617,10 @@ func scC08Race(r *Run) {
 }
 
 func init() {
-	register(&PropDef{ID: "C08", Quick: 2500, Thorough: 100000, Profiles: []ProfileDef{
+	register(&PropDef{ID: "C08", Quick: 3000, Thorough: 120000, Profiles: []ProfileDef{
 		{Name: "serial", Share: 2, Sc: scC08Serial},
 		{Name: "race", Share: 3, Sc: scC08Race, Race: true},
+		{Name: "go-on", Share: 1, Sc: scC18GoOn},
 	}})
 }
 
